@@ -44,7 +44,10 @@ RULE = (
     "any subset of add/remove/change), the route (_merge on as_dict()-shaped dictionaries with three "
     "metadata styles, or merge(odb) on trees stored through Tree.add/digest/odb.add in a "
     "LocalHashFileDB / HashFileDB / memfs HashFileDB, optionally a legacy md5-dos2unix store, ancestor "
-    "given as None or as a stored empty tree). Enumerated half: the finite sub-domain 3 keys x "
+    "given as None or as a stored empty tree; most merge(odb) cases then merge the SAME stored triple again "
+    "under a history of 2-4 further policies and argument orders - permissive-then-strict orders frequent, "
+    "also strict-then-permissive and repeats - each call judged on its own under its policy, identical "
+    "calls must agree: the outcome may not depend on what was merged before). Enumerated half: the finite sub-domain 3 keys x "
     "{absent,v1,v2} per side, sharded over the workers; a case runs both argument orders, so only pairs "
     "ours<=theirs are generated (thorough: all 98 415 (ordered triple, policy) pairs through both routes; "
     "quick: all ordered triples under the policies default and [add,remove,change], merge(odb) on a fixed "
@@ -314,20 +317,16 @@ def run_odb_route(case, ctx):
                 # the input trees themselves must be canonical, else the route checks nothing
                 return [Viol("odb:input-tree-oid", f"stored {name} tree got oid {infos[name].value}, "
                                                     f"reference {want}")], []
-        outcomes = []
-        for order, (x, y) in (("(ours, theirs)", ("ours", "theirs")), ("(theirs, ours)", ("theirs", "ours"))):
+        def one_merge(order, x, y, pol):
+            """One merge(odb, ...) call -> outcome tuple for judge(); identifier/bytes violations go to viols."""
             try:
-                merged = merge(odb, infos["anc"], infos[x], infos[y],
-                               allowed=None if policy is None else list(policy))
+                merged = merge(odb, infos["anc"], infos[x], infos[y], allowed=None if pol is None else list(pol))
             except MergeError as exc:
-                outcomes.append((order, "merge-error", str(exc)))
-                continue
+                return (order, "merge-error", str(exc))
             except Exception as exc:  # noqa: BLE001
-                outcomes.append((order, "exc", exc_viol("merge" + order, exc)))
-                continue
+                return (order, "exc", exc_viol("merge" + order, exc))
             if not isinstance(merged, Tree):
-                outcomes.append((order, "exc", Viol("odb:not-a-tree", f"merge returned {type(merged).__name__}")))
-                continue
+                return (order, "exc", Viol("odb:not-a-tree", f"merge returned {type(merged).__name__}"))
             conv, entries, bad = {}, {}, []
             for k, _meta, hi in merged:
                 v = getattr(hi, "value", None)
@@ -337,11 +336,8 @@ def run_odb_route(case, ctx):
                 else:
                     bad.append(k)
             if bad:
-                outcomes.append((order, "exc", Viol("odb:invented-value",
-                                                    f"{order}: merged tree has hash(es) at {bad} that occur "
-                                                    f"on no side")))
-                continue
-            outcomes.append((order, "ok", conv))
+                return (order, "exc", Viol("odb:invented-value",
+                                           f"{order}: merged tree has hash(es) at {bad} that occur on no side"))
             # canonical identifier of the merged content
             want_bytes = ref.ref_tree_bytes(entries)
             want_oid = ref.ref_hash(want_bytes) + ".dir"
@@ -350,20 +346,62 @@ def run_odb_route(case, ctx):
                 viols.append(Viol("odb:merged-oid",
                                   f"{order}: merged tree oid={merged.oid} hash_info={hv}, reference "
                                   f"{want_oid} for {entries}"))
-                continue
+                return (order, "ok", conv)
             # what the caller stores (DVC: odb.add(merged.path, merged.fs, merged.oid)) is that listing
             try:
                 odb.add(merged.path, merged.fs, merged.oid, hardlink=False)
             except Exception as exc:  # noqa: BLE001
                 viols.append(exc_viol("odb.add(merged)", exc))
-                continue
+                return (order, "ok", conv)
             data = raw_object(odb, kind, want_oid)
             if data != want_bytes:
                 viols.append(Viol("odb:merged-bytes",
                                   f"{order}: object stored for the merged tree holds "
                                   f"{None if data is None else data[:120]!r}, reference {want_bytes[:120]!r}"))
+            return (order, "ok", conv)
+
+        outcomes = [one_merge("(ours, theirs)", "ours", "theirs", policy),
+                    one_merge("(theirs, ours)", "theirs", "ours", policy)]
+        hist_viols, hist_classes = run_history(case.get("history"), one_merge, anc, ours, theirs)
         v2, classes = judge("odb", outcomes, anc, ours, theirs, policy)
-    return viols + v2, classes
+    return viols + v2 + hist_viols, classes + hist_classes
+
+
+def allowed_set(policy):
+    return frozenset(policy) if policy else frozenset(["add"])
+
+
+def run_history(history, one_merge, anc, ours, theirs):
+    """The same stored triple merged again under a sequence of policies / argument orders. Every call is
+    judged on its own against the per-key rule under ITS policy: the outcome of a merge must not depend on
+    what was merged before (same oids, same process)."""
+    if not history:
+        return [], []
+    viols, classes = [], ["history"]
+    seen = {}       # (policy set, swapped) -> outcome
+    done = []       # (policy set, swapped, kind)
+    for n, step in enumerate(history):
+        pol, swap = step["policy"], bool(step["swap"])
+        label = f"history step {n} policy {pol} " + ("(theirs, ours)" if swap else "(ours, theirs)")
+        out = one_merge(label, "theirs" if swap else "ours", "ours" if swap else "theirs", pol)
+        a, b = (theirs, ours) if swap else (ours, theirs)
+        v, _ = judge("odb-history", [out], anc, a, b, pol)
+        viols += v
+        key = (allowed_set(pol), swap)
+        if key in seen and seen[key][1:] != out[1:] and "exc" not in (seen[key][1], out[1]) and not (
+                seen[key][1] == out[1] == "merge-error"):
+            viols.append(Viol("odb-history:outcome-changed",
+                              f"{label}: the same call gave {seen[key][1]} before and {out[1]} now"))
+        seen.setdefault(key, out)
+        for p0, s0, k0 in done:
+            if k0 == "ok" and key[0] < p0:
+                classes.append("history:stricter-after-permissive-success")
+                if out[1] == "merge-error":
+                    classes.append("history:stricter-refuses-after-permissive-success")
+            if k0 == "merge-error" and key[0] > p0 and out[1] == "ok":
+                classes.append("history:permissive-succeeds-after-stricter-refusal")
+        done.append((key[0], swap, out[1]))
+    return viols, classes
 
 
 # ------------------------------------------------------------------------------------------
@@ -382,6 +420,10 @@ def validate(case):
         assert len(case[name]) == len(keys)
     assert case["policy"] is None or set(case["policy"]) <= set(KINDS)
     assert case["route"] in ("dict", "odb", "both")
+    for step in case.get("history") or []:
+        assert step["policy"] is None or set(step["policy"]) <= set(KINDS)
+        assert step["swap"] in (True, False, 0, 1)
+    assert not case.get("history") or case["route"] in ("odb", "both")
 
 
 def run_case(case, ctx):
@@ -487,6 +529,21 @@ TAIL_CHOICES = [
     for anc_none in (False, True)
 ]
 _TAIL = st.tuples(st.sampled_from(POLICY_CHOICES), st.sampled_from(TAIL_CHOICES))
+FULL = ["add", "remove", "change"]
+HISTORY_TEMPLATES = [
+    None, None,                                         # no history
+    [FULL, None], [FULL, "case"], [FULL, ["add"], ["add", "remove"]], [["add", "change"], None, FULL, None],
+    [["add", "remove"], ["add"], FULL], [None, FULL, None], ["case", FULL, "case"], "random",
+]
+_HISTORY = st.tuples(st.sampled_from(HISTORY_TEMPLATES), st.integers(0, 15),
+                     st.lists(st.sampled_from(POLICY_CHOICES), min_size=2, max_size=4))
+
+
+def make_history(template, swaps, rnd, case_policy):
+    if template is None:
+        return None
+    pols = rnd if template == "random" else [case_policy if p == "case" else p for p in template]
+    return [{"policy": None if p is None else list(p), "swap": bool((swaps >> i) & 1)} for i, p in enumerate(pols)]
 
 
 @st.composite
@@ -509,12 +566,19 @@ def cases(draw):
         case["store"] = store
         case["legacy"] = legacy
         case["anc_none"] = anc_none
+        hist = make_history(*draw(_HISTORY), pol)
+        if hist:
+            case["history"] = hist
     return case
 
 
 def _mix(n):
     """Deterministic integer scrambler: spreads the per-triple choices evenly over the worker shards."""
     return ((n * 2654435761) & 0xFFFFFFFF) >> 11
+
+
+ENUM_HISTORIES = [None, [FULL, "case"], [FULL, None, "case"], [["add", "change"], "case", FULL, "case"],
+                  [["add", "remove"], ["add"]], ["case", FULL, "case"]]
 
 
 def enum_cases(tier):
@@ -540,6 +604,9 @@ def enum_cases(tier):
                         case["store"] = STORES[1 + (h // 64) % 2] if (h // 8) % 8 == 0 else "mem"
                         case["legacy"] = False
                         case["anc_none"] = (h // 512) % 2 == 1
+                        tmpl = ENUM_HISTORIES[(h // 1024) % len(ENUM_HISTORIES)]
+                        if tmpl:
+                            case["history"] = make_history(tmpl, h // 4096, None, pol)
                     yield i, case
                     i += 1
                     n += 1
